@@ -398,3 +398,37 @@ func TestC20Exhaustive(t *testing.T) {
 		m.Record(t, firstFail.c, firstFail.v)
 	}
 }
+
+// native fuzzing over scripts: bytes are folded onto the alphabet, so every input is a script
+func FuzzC20Script(f *testing.F) {
+	for _, s := range []string{"FE", "FFUE", "FQE", "PPPB", "ATRUFZ", "FTFTFC", "UUUUX", "QQQQE", "FPQATRUE"} {
+		f.Add([]byte(s), int16(-1))
+		f.Add([]byte(s), int16(1))
+	}
+	f.Fuzz(func(t *testing.T, raw []byte, cancel int16) {
+		if len(raw) > 64 {
+			raw = raw[:64]
+		}
+		all := c20Alphabet + c20Terminals
+		b := make([]byte, 0, len(raw)+1)
+		nu := 0
+		for _, x := range raw {
+			c := all[int(x)%len(all)]
+			if c == 'U' { // every unknown failure costs a 5 ms pause
+				if nu++; nu > 4 {
+					c = 'R'
+				}
+			}
+			b = append(b, c)
+		}
+		c := c20Case{Script: string(b), Cancel: -1}
+		if cancel >= 0 {
+			c.Cancel = int(cancel) % (len(b) + 1)
+		} else {
+			c.Script += "E"
+		}
+		if v := c20Check(c); v.Err != nil {
+			t.Fatalf("property C20 violated: %v", v.Err)
+		}
+	})
+}
